@@ -287,9 +287,12 @@ class Outcome:
 
 
 class Effect:
-    __slots__ = ('kind', 'target', 'detail', 'site', 'chain')
+    __slots__ = ('kind', 'target', 'detail', 'site', 'chain', 'seq')
+    _seq = [0]
 
     def __init__(self, kind, target, detail, site, chain):
+        Effect._seq[0] += 1
+        self.seq = Effect._seq[0]
         self.kind = kind
         self.target = target
         self.detail = detail
@@ -663,7 +666,8 @@ class Interp:
         env = self.bind_args(fi, args, kwargs, state, node, closure_env)
         saved = (self.cur_module, self.cur_func)
         self.stack.append((fi, self.site(node) if self.cur_module else None))
-        self.calls.append((fi.short, self.chain()))
+        Effect._seq[0] += 1
+        self.calls.append((fi.short, self.chain(), Effect._seq[0]))
         self.cur_module, self.cur_func = fi.module, fi
         try:
             frame = Frame(self, fi, fi.module, fi.owner, env)
@@ -709,7 +713,7 @@ class Interp:
         summ = self.policy.summarise(self, fi, args, kwargs, state)
         if summ is not None:
             value, raises = summ
-            self.calls.append((fi.short + ' [summarised]', self.chain()))
+            self.calls.append((fi.short + ' [summarised]', self.chain(), 0))
             for et, why in raises:
                 n0 = len(self.pending)
                 self.raise_pending(state, et, node, why)
@@ -743,7 +747,7 @@ class Interp:
     def recursive_call(self, fi, args, kwargs, state, node):
         """A call that re-enters a function already being inlined: use the
         function's inductive summary (fixpoint computed by codec.py)."""
-        self.calls.append((fi.short + ' [recursive]', self.chain()))
+        self.calls.append((fi.short + ' [recursive]', self.chain(), 0))
         self.rec_hits.add(fi.qualname)
         self.rec_calls.append((fi, list(args), self.chain(), self.site(node),
                                state.kn.copy()))
